@@ -824,6 +824,8 @@ func (w *world) finalPhase() {
 			} else {
 				w.deliver(e.msg, false)
 			}
+			// every event gets its own instant of the fake clock (the election jitter is a function of it)
+			time.Sleep(gridStep)
 			continue
 		}
 		// nothing in flight: one probe proposal per slot once a leader exists, then check convergence
